@@ -330,6 +330,22 @@ func checkPathItemOwnership(c *Ctx, r *Report, clause, ver, pkgRel, setFn string
 		}
 	}
 	o := r.add(clause, "whowrites", setFn+":path-item-ownership", ver+": the document's path items are looked up and written only in setNewRouteOperation, on the document's own map", []string{setFn}, sites, viol)
+	// ... and every call registers the item under the route's own path key: the lookup may find
+	// an item through another spelling of the template (kin's Paths.Find normalises parameter
+	// names), the registration under the own key is what makes the route's path appear in the
+	// document and lets the document validator see parameters and path together
+	if fi := need(c, r, clause, setFn); fi != nil {
+		isSet := func(n string) bool {
+			return strings.HasSuffix(n, "openapi3.Paths).Set") || (strings.Contains(n, "OrderedMap[") && strings.HasSuffix(n, ").Set"))
+		}
+		ss, v := w.mustPassCall(fi.SSA, isSet, "Paths.Set(routePath, pathItem)")
+		for _, cl := range callsIn(fi.SSA, false, isSet) {
+			if a := sliceOf(cl.Common().Args[len(cl.Common().Args)-2]); !a.Calls["common.RemoveDuplicateSlash"] {
+				v = fmt.Sprintf("%s: the path item is not registered under the route's composed path", w.pos(cl.Pos()))
+			}
+		}
+		r.add(clause, "mustcall", setFn+":registered-under-own-path", ver+": every operation's path item is (re-)registered under the route's own path key, whatever the lookup found", []string{setFn}, ss, v)
+	}
 	o.NonTrivial = true
 }
 
